@@ -109,6 +109,11 @@ package chord
 
 // ---- C15: the retrying KV wrapper (wiring; the retry loop itself is the library's)
 
+// The configuration asked for is the one honoured: every call builds its OWN wrapper around exactly the node given,
+// also when that node is itself a retrying wrapper (whose configuration must not silently win).
+//@ func WrapRetryKV(vnode VNode, interval time.Duration, maxAttempts uint) (r VNode)
+//@   ensures a-new-wrapper-around-the-given-node-with-the-requested-configuration: dyntype(r, "*retryableWrapper") && fresh(cast(r, "*retryableWrapper")) && cast(r, "*retryableWrapper").VNode == vnode && cast(r, "*retryableWrapper").retryInterval == interval && cast(r, "*retryableWrapper").retryAttempts == maxAttempts
+
 //@ func (n *retryableWrapper) retryOptions(ctx context.Context) (r []retry.Option)
 //@   opt frame=off
 //@   ensures policy: len(r) == 6 && r[0] == retry.Context(ctx) && r[1] == retry.Attempts(n.retryAttempts) && r[2] == retry.Delay(n.retryInterval) && r[4] == retry.RetryIf(ErrorIsRetryable) && r[5] == retry.LastErrorOnly(true)
